@@ -43,12 +43,15 @@ class PlotModel:
         self.stale_levels = 0   # stale level blocks after the last level (example_plt_2d)
         self.float_fmt = "g17"  # or "repr"
         self.version = "HyperCLaw-V1.1"
+        self.phys = None        # optional [lv][b] -> [(lo, hi) per dim]: bounds as found on disk
 
     # ------------------------------------------------------------------ geometry
     def fmt(self, x):
         return g17(x) if self.float_fmt == "g17" else repr(float(x))
 
     def box_phys(self, lv, b):
+        if self.phys is not None:
+            return [tuple(p) for p in self.phys[lv][b]]
         lo, hi = self.boxes[lv][b]
         out = []
         for d in range(self.ndims):
@@ -124,6 +127,7 @@ class PlotModel:
         m.fields = list(self.fields)
         m.layout = [list(l) for l in self.layout]
         m.data = [list(d) for d in self.data]
+        m.phys = None if self.phys is None else [[list(b) for b in lv] for lv in self.phys]
         return m
 
     def restrict(self, fields, limit=None):
@@ -138,6 +142,8 @@ class PlotModel:
         m.boxes = m.boxes[:limit + 1]
         m.layout = m.layout[:limit + 1]
         m.steps = m.steps[:limit + 1]
+        if m.phys is not None:
+            m.phys = m.phys[:limit + 1]
         m.fields = list(fields)
         m.data = [[arr[..., idx] for arr in self.data[lv]] for lv in range(limit + 1)]
         return m
@@ -477,7 +483,71 @@ def fill_with(m, fn):
     return m
 
 
-def gen_world(src, tag="w", special_ok=True, **mesh_kw):
+def gen_scale_world(src, cls, tag="w"):
+    """Worlds beyond the usual tiny scale, one dimension at a time (real plotfiles have boxes of tens of
+    MB, hundreds of boxes per file, 4-5 digit indices, 40 fields):
+      hugebox    one 64^3 box with 5 fields (10.5 MB payload) + a small fine level
+      manyboxes  144 boxes of 2^3 (or 2^2) in 1-2 files (72+ boxes per file, not a multiple of 64)
+      farcorner  5 levels, fine boxes at indices >= 1000 in every direction (FAB headers > 100 bytes)
+      manyfields 40-45 fields on a tiny mesh
+    """
+    m = PlotModel()
+    m.time = 0.5
+    rng = np.random.default_rng(src.draw(f"{tag}.scale.seed", 0, 9999))
+    if cls == "hugebox":
+        m.ndims = 3
+        m.nlev = 2
+        m.geo_low, m.geo_high = [0.0, -1.0, 2.0], [1.0, 0.0, 3.0]
+        m.grid_sizes = [(64, 64, 64), (128, 128, 128)]
+        m.dx = [[1.0 / 64] * 3, [1.0 / 128] * 3]
+        m.boxes = [[((0, 0, 0), (63, 63, 63))], [((8, 8, 8), (15, 15, 15)), ((16, 8, 8), (19, 15, 15))]]
+        m.fields = ["density", "temp", "x_velocity", "Y(H2)", "pressure"]
+    elif cls == "manyboxes":
+        m.ndims = 2 + src.draw(f"{tag}.scale.dims3", 0, 1)
+        nb = (6, 6, 4) if m.ndims == 3 else (12, 12)
+        m.nlev = 1
+        m.geo_low = [0.0] * m.ndims
+        m.geo_high = [float(n) for n in nb]
+        m.grid_sizes = [tuple(2 * n for n in nb)]
+        m.dx = [[0.5] * m.ndims]
+        blocks = [tuple(int(v) for v in idx) for idx in np.argwhere(np.ones(nb, dtype=bool))]
+        order = rng.permutation(len(blocks)) if src.flag(f"{tag}.scale.shuffle") else range(len(blocks))
+        m.boxes = [[(tuple(2 * v for v in blocks[k]), tuple(2 * v + 1 for v in blocks[k])) for k in order]]
+        m.fields = ["a", "b"][:src.draw(f"{tag}.scale.nf", 1, 2)]
+    elif cls == "farcorner":
+        m.ndims = 3
+        m.nlev = 5
+        m.geo_low, m.geo_high = [0.0, 0.0, 0.0], [1.0, 1.0, 1.0]
+        m.grid_sizes = [tuple([64 * 2 ** l] * 3) for l in range(5)]
+        m.dx = [[1.0 / (64 * 2 ** l)] * 3 for l in range(5)]
+        m.boxes = [[((0, 0, 0), (31, 63, 63)), ((32, 0, 0), (63, 63, 63))]]
+        hi = 63
+        for l in range(1, 5):
+            hi = 2 * hi + 1
+            m.boxes.append([(tuple([hi - 7] * 3), tuple([hi] * 3)), ((hi - 15, hi - 7, hi - 7), (hi - 8, hi, hi))])
+        m.fields = ["phi"]
+    else:
+        m.ndims = 2 + src.draw(f"{tag}.scale.dims3", 0, 1)
+        m.nlev = 1
+        m.geo_low = [0.0] * m.ndims
+        m.geo_high = [1.0] * m.ndims
+        m.grid_sizes = [tuple([4] * m.ndims)]
+        m.dx = [[0.25] * m.ndims]
+        m.boxes = [[(tuple([0] * m.ndims), tuple([1, 3, 3][:m.ndims])), (tuple([2] + [0] * (m.ndims - 1)), tuple([3] * m.ndims))]]
+        m.fields = [f"field_{k:02d}" for k in range(src.draw(f"{tag}.scale.nfields", 40, 45))]
+    m.steps = [7] * m.nlev
+    gen_layout(src, m, tag=tag, max_files=2 if cls == "manyboxes" else 3)
+    fill_random(m, int(rng.integers(0, 10 ** 6)))
+    return m
+
+
+def gen_world(src, tag="w", special_ok=True, scale=(), scale_rate=24, **mesh_kw):
+    if scale:
+        k = src.draw(f"{tag}.scale", 0, scale_rate * len(scale) - 1)
+        if k < len(scale) and not (mesh_kw.get("force_3d") and scale[k] in ()) :
+            cls = scale[k]
+            if not (mesh_kw.get("force_2d") and cls in ("hugebox", "farcorner")):
+                return gen_scale_world(src, cls, tag)
     # swarm flag: a share of worlds is "big" (more levels, boxes, files, fields) so that count- and
     # size-dependent behaviour is exercised; the rest stays tiny and fast
     big = src.flag(f"{tag}.big", 6)
